@@ -224,6 +224,76 @@ def nominal_cases():
     return out
 
 
+# mixed durations (C05: exact part first, then months, then years).  (gy, gm, gd) is the
+# universally quantified calendar triple of the day reached by the exact part; (gy2, gn2) /
+# (gy2, gw2, gd2) the ordinal / week spelling of the day reached after the month step.
+_XLEN = "(sod(self) + dlen(other))"
+_XDAY = "(date_abs(self) + fdiv(%s, 86400))" % _XLEN
+_MI = "(12 * gy + gm - 1)"
+_MS = "(1 if other._months > 0 else -1)"
+_MJ = "(%s + other._months)" % _MI
+_RMX = "runmin(%s, gd, abs(other._months), %s)" % (_MI, _MS)
+_G1 = "valid_cal(gy, gm, gd) and cal_abs(gy, gm, gd) == %s" % _XDAY
+_MDAY = "cal_abs(%s // 12, %s %% 12 + 1, %s)" % (_MJ, _MJ, _RMX)
+MIXED_TIME = [
+    "time_normal(result)",
+    "sod(result) == %s - 86400 * fdiv(%s, 86400)" % (_XLEN, _XLEN)]
+MIXED_ENS = {
+    "cal": [
+        "implies(%s, runmin_def(%s, gd, 0, %s) and midx(result) == %s + 12 * other._years"
+        " and result._day_of_month == min(%s, dim(result._year, result._month_of_year)))"
+        % (_G1, _MI, _MS, _MJ, _RMX)],
+    "ord": [
+        "implies(%s and valid_ord(gy2, gn2) and absday(gy2, gn2) == %s,"
+        " result._year == gy2 + other._years"
+        " and result._day_of_year == min(gn2, diy(gy2 + other._years)))" % (_G1, _MDAY)],
+    "week": [
+        "implies(%s and valid_week(gy2, gw2, gd2) and week_abs(gy2, gw2, gd2) == %s,"
+        " result._year == gy2 + other._years"
+        " and result._week_of_year == min(gw2, wiy(gy2 + other._years))"
+        " and result._day_of_week == gd2)" % (_G1, _MDAY)],
+}
+
+
+_MIX_COMPS = (("s", "_seconds"), ("i", "_minutes"), ("h", "_hours"), ("d", "_days"),
+              ("M", "_months"), ("Y", "_years"))
+MIX_QUICK = ("MY", "sMY", "iMY", "hMY", "dMY", "sihdMY")
+
+
+def _mixed_dur(present):
+    """Unit-form duration whose components named in `present` are symbolic and non-zero
+    (stated as a case requirement) and whose other components are the concrete 0 the
+    constructor stores: the union over all subsets is every unit-form duration."""
+    def build(E, st):
+        r = mk_duration(E, st, "other", "unit")
+        h = st.obj(r)
+        for (c, k) in _MIX_COMPS:
+            if c not in present:
+                h.slots[k] = 0 if k in ("_days", "_months", "_years") else 0.0
+        return {"other": r}
+    return build
+
+
+def mixed_cases():
+    import itertools
+    out = []
+    letters = [c for (c, k) in _MIX_COMPS]
+    for n in range(1, 7):
+        for sub in itertools.combinations(letters, n):
+            present = "".join(sub)
+            if "M" not in present and "Y" not in present:
+                continue        # exact durations: the `exact` / `week` cases
+            for d in DATES:
+                for t in TIMES:
+                    out.append(Case(
+                        "%s-%s+mixed:%s" % (d, t, present),
+                        tp_case(d, t, _mixed_dur(present)),
+                        requires=["time_normal(self)"] + [
+                            "other.%s != 0" % k for (c, k) in _MIX_COMPS if c in present],
+                        ensures="MIXED:" + d))
+    return out
+
+
 contract(
     "data:TimePoint.__add__",
     applicable=lambda E, st, env: is_full_tp(E, st, env["self"]) and
@@ -239,7 +309,37 @@ contract(
         " and same_time_and_zone(result, self))",
         "implies(d_exact(other) and whole_seconds(self) and dwhole(other)"
         " and self._second_of_minute is not None, whole_seconds(result))"],
-    cases=add_cases() + nominal_cases(), merge=False, opaque=["dby"],
+    cases=add_cases() + nominal_cases() + mixed_cases(), merge=False, opaque=["dby"],
+    ghosts={"gy": "int", "gm": "int", "gd": "int", "gy2": "int", "gn2": "int",
+            "gw2": "int", "gd2": "int"},
+    cuts=[("if duration._days:", [
+               # (mixed cases only) the exact part is done: `new` is self's instant moved by
+               # the exact length, normalised; its day is date_abs(self) + whole days carried
+               "(use_lemma('day.floor', a=date_abs(new) - date_abs(self), r=sod(new),"
+               " x=sod(self) + dlen(other)) and (use_lemma('cal.key.order', y1=gy, m1=gm,"
+               " d1=gd, y2=new._year, m2=new._month_of_year, d2=new._day_of_month)"
+               " if is_cal(new) else True))"
+               " if (d_months(other) != 0 or d_years(other) != 0) else True",
+               "(date_abs(new) == %s)"
+               " if (d_months(other) != 0 or d_years(other) != 0) and time_normal(self)"
+               " else True" % _XDAY]),
+          ("if duration._months:", [
+               "(runmin_def(%s, gd, 0, %s) and (use_lemma('ord.key.order', y1=gy2, n1=gn2,"
+               " y2=new._year, n2=new._day_of_year) if is_ord(new) else True)"
+               " and (use_lemma('week.key.order', y1=gy2, w1=gw2, d1=gd2, y2=new._year,"
+               " w2=new._week_of_year, d2=new._day_of_week) if is_week(new) else True))"
+               " if (d_months(other) != 0 or d_years(other) != 0) else True" % (_MI, _MS),
+               # staging: the month step reached the day the ghosts spell
+               "implies(%s and valid_ord(gy2, gn2) and absday(gy2, gn2) == %s,"
+               " new._year == gy2 and new._day_of_year == gn2)"
+               " if is_ord(new) and (d_months(other) != 0 or d_years(other) != 0)"
+               " and time_normal(self) else True"
+               % (_G1, _MDAY),
+               "implies(%s and valid_week(gy2, gw2, gd2) and week_abs(gy2, gw2, gd2) == %s,"
+               " new._year == gy2 and new._week_of_year == gw2 and new._day_of_week == gd2)"
+               " if is_week(new) and (d_months(other) != 0 or d_years(other) != 0)"
+               " and time_normal(self) else True"
+               % (_G1, _MDAY)])],
     regions=[{
         # KF-C01-1: 24:00 plus a Duration with no exact part returns a field-for-field
         # copy (hour 24 kept): the general clause 0 <= h < 24 does not hold here, and
@@ -588,6 +688,14 @@ AM_ENS_CAL = [
 AM_ENS_OTHER = [
     "fresh(result)", "unchanged(self)", "valid_date(result)",
     "same_time_and_zone(result, self)"] + SAME_SHAPE
+# ordinal / week forms: the date is the calendar date of self moved like a calendar-form
+# point, re-expressed.  (gy, gm, gd) is universally quantified: for THE calendar triple of
+# self's day the result's day is (month index + n, running-minimum day).
+_GIDX = "(12 * gy + gm - 1)"
+AM_ENS_VIA_CAL = [
+    "implies(valid_cal(gy, gm, gd) and cal_abs(gy, gm, gd) == date_abs(self),"
+    " date_abs(result) == cal_abs((%s + num_months) // 12, (%s + num_months) %% 12 + 1,"
+    " runmin(%s, gd, abs(num_months), 1 if num_months > 0 else -1)))" % (_GIDX, _GIDX, _GIDX)]
 
 
 def am_cases():
@@ -601,7 +709,7 @@ def am_cases():
             for d in ("ord", "week"):
                 out.append(Case("%s-%s-%s" % (d, t, sg), tp_case(
                     d, t, lambda E, st: {"num_months": E.sym_int("num_months")}),
-                    requires=req, ensures=AM_ENS_OTHER))
+                    requires=req, ensures=AM_ENS_OTHER + AM_ENS_VIA_CAL))
     out.append(Case("zero", tp_case("cal", "hms", lambda E, st: {"num_months": 0}),
                     ensures=["result is self", "unchanged(self)"], fresh_result=False))
     return out
@@ -614,12 +722,22 @@ contract(
     inline_fallback=True,
     requires=["valid_date(self)", "time_normal(self)", "tz_ok(self._time_zone)"],
     result=am_result, fresh_result=True,
-    ensures=["(%s) if is_cal(self) else True" % e for e in AM_ENS_CAL] + AM_ENS_OTHER,
+    ensures=["(%s) if is_cal(self) else True" % e for e in AM_ENS_CAL] + AM_ENS_OTHER + [
+        "(%s) if not is_cal(self) else True" % e for e in AM_ENS_VIA_CAL],
     loops={0: am_loop(1)},      # replaced per case below (direction)
     cases=am_cases(),
+    ghosts={"gy": "int", "gm": "int", "gd": "int"},
+    cuts=[("new = new.to_calendar_date()", [
+        "use_lemma('cal.key.order', y1=gy, m1=gm, d1=gd, y2=new._year,"
+        " m2=new._month_of_year, d2=new._day_of_month)"]),
+          ("new._tick_over()", [
+        # the week date that to_week_date() is about to produce spells the same day
+        "use_lemma('week_of.valid', y=new._year, n=ord_of(new._year, new._month_of_year,"
+        " new._day_of_month)) if is_week(self) else True"])],
     note="calendar form: month index exactly n away, day = running minimum of the "
-         "visited month lengths (n clamped single steps); other forms: shape, validity, "
-         "time and zone (their date is tied to the calendar form by a ghost program)")
+         "visited month lengths (n clamped single steps); ordinal and week forms: the "
+         "result is that calendar-form result of self's own calendar date, re-expressed "
+         "(day number equality, for the universally quantified calendar triple of self)")
 
 
 # ---------------------------------------------------------------- Unix epoch (C18)
@@ -741,7 +859,39 @@ def at_case(name, date, time, params, requires, ensures):
         for p in params:
             d[p] = E.sym_int(p)
         return d
-    return Case(name, build, requires=requires, ensures=ensures)
+    return Case(name, build, requires=["time_normal(self)"] + list(requires), ensures=ensures)
+
+
+def at_cases_24():
+    """p in the 24:00 end-of-day form (normalised to next-day 00:00 before stepping since
+    /repo 7cabc45): the same clauses, for the families of the other cases."""
+    out = []
+    R_M = "0 <= minute_of_hour and minute_of_hour < 60"
+    R_H = "0 <= hour_of_day and hour_of_day < 24"
+    H24 = "self._hour_of_day == 24"
+    fams = [
+        ("hh", ["hour_of_day"], [R_H], _TIME_POST + [
+            "result._hour_of_day == hour_of_day and result._minute_of_hour == 0"
+            " and result._second_of_minute == 0"]),
+        ("mm", ["minute_of_hour"], [R_M], _TIME_POST + [
+            "result._minute_of_hour == minute_of_hour and result._second_of_minute == 0"]),
+        ("dow", ["day_of_week"], ["1 <= day_of_week and day_of_week <= 7"], _AT_COMMON + [
+            "is_week(result) and result._day_of_week == day_of_week",
+            "sod(result) == 0", "date_abs(result) - date_abs(self) <= 7"]),
+        ("dom", ["day_of_month"],
+         ["1 <= day_of_month and day_of_month <= MAXDIM - 3 + (MAXDIM == 30) * 3"],
+         _AT_COMMON + [
+            "is_cal(result) and result._day_of_month == day_of_month", "sod(result) == 0",
+            # no day from the one 24:00 denotes (the next one) up to the result has it
+            "implies(valid_cal(gy, gm, gd) and date_abs(self) + 1 <= cal_abs(gy, gm, gd)"
+            " and cal_abs(gy, gm, gd) < date_abs(result), gd != day_of_month)"]),
+    ]
+    for d in DATES:
+        for (nm, params, req, ens) in fams:
+            c = at_case("%s-hms-24:%s" % (d, nm), d, "hms", params, req, ens)
+            c.requires = [H24] + [r for r in c.requires if r != "time_normal(self)"]
+            out.append(c)
+    return out
 
 
 def at_cases():
@@ -856,9 +1006,13 @@ def at_cases():
 contract(
     "data:TimePoint.add_truncated", use_at_calls=False, opaque=["dby"],
     ghosts={"gy": "int", "gm": "int", "gd": "int", "gn": "int", "gw": "int"},
-    requires=["valid_date(self)", "time_normal(self)", "whole_seconds(self)",
+    requires=["valid_date(self)", "time_normal24(self)", "whole_seconds(self)",
               "tz_ok(self._time_zone)"],
-    loops=AT_LOOPS, cases=at_cases(),
+    loops=AT_LOOPS, cases=at_cases() + at_cases_24(),
+    cuts=[("if new._hour_of_day == CALENDAR.HOURS_IN_DAY:", [
+        "(new._hour_of_day == 0 and new._minute_of_hour == 0 and new._second_of_minute == 0"
+        " and date_abs(new) == date_abs(self) + 1 and valid_date(new))"
+        " if self._hour_of_day == 24 and self._second_of_minute is not None else True"])],
     note="earliest date-time >= p whose specified fields equal the targets; termination "
          "proved for targets that exist in every month/year")
 
@@ -910,6 +1064,9 @@ _ADD = REGISTRY_GET("data:TimePoint.__add__")
 for _c in _ADD.cases:
     if _c.ensures == "GENERAL":
         _c.ensures = [e for e in _ADD.ensures if e != _ADD_WHOLE]
+    elif isinstance(_c.ensures, str) and _c.ensures.startswith("MIXED:"):
+        _c.ensures = [e for e in _ADD.ensures if e != _ADD_WHOLE] + MIXED_TIME + \
+            MIXED_ENS[_c.ensures[6:]]
 _ADD.cases += trunc_add_cases()
 
 
